@@ -86,6 +86,103 @@ class Server(threading.Thread):
             conn.close()
 
 
+class UpdateServer(threading.Thread):
+    """RFB 3.3 server that answers every FramebufferUpdateRequest, after a delay, with a 1x1 raw update, and logs when"""
+
+    def __init__(self, delay=0.15):
+        super().__init__(daemon=True)
+        self.sock = socket.socket()
+        self.sock.bind(("127.0.0.1", 0))
+        self.sock.listen(2)
+        self.port = self.sock.getsockname()[1]
+        self.delay = delay
+        self.events = []          # ("request", k) / ("reply", k), shared with the application thread's ("returned", k)
+        self.lock = threading.Lock()
+
+    def note(self, *ev):
+        with self.lock:
+            self.events.append(ev)
+
+    def run(self):
+        try:
+            self.sock.settimeout(10)
+            conn, _ = self.sock.accept()
+            conn.settimeout(10)
+            conn.sendall(b"RFB 003.003\n")
+            buf = b""
+            while len(buf) < 12:
+                buf += conn.recv(64)
+            buf = buf[12:]
+            conn.sendall(struct.pack("!I", 1))
+            while len(buf) < 1:
+                buf += conn.recv(64)
+            buf = buf[1:]
+            conn.sendall(struct.pack("!HH", 2, 2) + vclient.RGB32.to_bytes() + struct.pack("!I", 1) + b"u")
+            k = 0
+            sizes = {0: 20, 3: 10, 4: 8, 5: 6}
+            while True:
+                while not buf:
+                    d = conn.recv(4096)
+                    if not d:
+                        return
+                    buf += d
+                t = buf[0]
+                if t == 2:
+                    while len(buf) < 4:
+                        buf += conn.recv(4096)
+                    n = 4 + 4 * struct.unpack("!H", buf[2:4])[0]
+                else:
+                    n = sizes.get(t, 1)
+                while len(buf) < n:
+                    buf += conn.recv(4096)
+                msg, buf = buf[:n], buf[n:]
+                if t == 3:
+                    self.note("request", k)
+                    time.sleep(self.delay)
+                    self.note("reply", k)
+                    conn.sendall(struct.pack("!BxH", 0, 1) + struct.pack("!HHHHi", 0, 0, 1, 1, 0) + bytes([k & 255, 0, 0, 0]))
+                    k += 1
+        except Exception:  # noqa
+            pass
+        finally:
+            self.sock.close()
+
+
+def real_operation_leg(ctx):
+    """a real operation that finishes asynchronously: refreshScreen returns only after the server's reply to ITS request"""
+    r = ctx.rng
+    for si in range(ctx.n(2, 10)):
+        srv = UpdateServer(delay=r.choice([0.1, 0.2]))
+        srv.start()
+        cl = api.connect("127.0.0.1::%d" % srv.port, timeout=8)
+        flags = [False] + [r.random() < .7 for _ in range(r.randint(2, 4))]
+        err = None
+        try:
+            for k, inc in enumerate(flags):
+                cl.refreshScreen(incremental=inc)
+                srv.note("returned", k)
+        except Exception as e:  # noqa
+            err = "%s: %s" % (type(e).__name__, e)
+        try:
+            cl.disconnect()
+        except Exception:  # noqa
+            pass
+        with srv.lock:
+            evs = list(srv.events)
+        ctx.count("real_refresh_sessions")
+        ctx.case(None, key=("refresh", si))
+        bad = err
+        if not bad:
+            for k in range(len(flags)):
+                if ("reply", k) not in evs or ("returned", k) not in evs or evs.index(("returned", k)) < evs.index(("reply", k)):
+                    bad = "call %d (incremental=%s) returned before the server had answered its request" % (k, flags[k])
+                    break
+        if bad:
+            ctx.violate("returns-before-completion", {"input": {"calls": ["refreshScreen(incremental=%s)" % f for f in flags], "server_reply_delay": srv.delay},
+                                                      "observed": "%s; order of events %r" % (bad, evs[:12]),
+                                                      "how": "vncdotool.api against a loopback RFB server that answers each update request after a delay; server and application thread log into one list"})
+
+
 class OpError(Exception):
     pass
 
@@ -169,6 +266,7 @@ def run(ctx):
     from twisted.python import log as tlog
     tlog.startLoggingWithObserver(lambda event: None, setStdout=False)
     srvA, srvB = Server("srvA"), Server("srvB")
+    real_operation_leg(ctx)
     srvAuth = Server("srvAuth")
     srvAuth.auth = True
     srvA.start(); srvB.start(); srvAuth.start()
